@@ -621,6 +621,166 @@ Section Factory.
     end.
 End Factory.
 
+
+(* -------------------------------------------------------------------------------------------------- *)
+(* Preloads.set_*(fit_0, fit_1): the production path that FILLS the slots, from the inversions of two fits.         *)
+(* A fit's inversion is an inversion object in some state (its cached_property values, its own Preloads object).   *)
+(* Every set_* method first clears its slots, then reads attributes of BOTH inversions (which fills their caches), *)
+(* compares them (max |a - b| < 1e-8, [cmpk]) and stores fit_0's values.  set_curvature_matrix stores a COPY of     *)
+(* inversion_0.curvature_matrix (/repo commit 1fc8a9b; before it, an alias of the cached array, which               *)
+(* curvature_reg_matrix overwrites in place).                                                                       *)
+Section SetPreloads.
+  Variable T : Type.
+  Variable K : kernels T.
+  Variable V : variant.
+  Record cmpk := { c_close_v : vec T -> vec T -> bool; c_close_m : mat T -> mat T -> bool; c_close_t : T -> T -> bool }.
+  Variable Cm : cmpk.
+  Definition put_use_wt (o : option bool) (p : pstore T) : pstore T :=
+    {| s_use_wt := o; s_wt := s_wt p; s_omm := s_omm p; s_curv := s_curv p; s_cmd := s_cmd p; s_reg := s_reg p; s_dvm := s_dvm p; s_lf := s_lf p; s_dlf := s_dlf p; s_momm := s_momm p; s_ldr := s_ldr p |}.
+  Definition put_wt (o : option (wtilde T)) (p : pstore T) : pstore T :=
+    {| s_use_wt := s_use_wt p; s_wt := o; s_omm := s_omm p; s_curv := s_curv p; s_cmd := s_cmd p; s_reg := s_reg p; s_dvm := s_dvm p; s_lf := s_lf p; s_dlf := s_dlf p; s_momm := s_momm p; s_ldr := s_ldr p |}.
+  Definition put_omm (o : option (mat T)) (p : pstore T) : pstore T :=
+    {| s_use_wt := s_use_wt p; s_wt := s_wt p; s_omm := o; s_curv := s_curv p; s_cmd := s_cmd p; s_reg := s_reg p; s_dvm := s_dvm p; s_lf := s_lf p; s_dlf := s_dlf p; s_momm := s_momm p; s_ldr := s_ldr p |}.
+  Definition put_curv (o : option (mat T)) (p : pstore T) : pstore T :=
+    {| s_use_wt := s_use_wt p; s_wt := s_wt p; s_omm := s_omm p; s_curv := o; s_cmd := s_cmd p; s_reg := s_reg p; s_dvm := s_dvm p; s_lf := s_lf p; s_dlf := s_dlf p; s_momm := s_momm p; s_ldr := s_ldr p |}.
+  Definition put_cmd (o : option (mat T)) (p : pstore T) : pstore T :=
+    {| s_use_wt := s_use_wt p; s_wt := s_wt p; s_omm := s_omm p; s_curv := s_curv p; s_cmd := o; s_reg := s_reg p; s_dvm := s_dvm p; s_lf := s_lf p; s_dlf := s_dlf p; s_momm := s_momm p; s_ldr := s_ldr p |}.
+  Definition put_reg (o : option (mat T)) (p : pstore T) : pstore T :=
+    {| s_use_wt := s_use_wt p; s_wt := s_wt p; s_omm := s_omm p; s_curv := s_curv p; s_cmd := s_cmd p; s_reg := o; s_dvm := s_dvm p; s_lf := s_lf p; s_dlf := s_dlf p; s_momm := s_momm p; s_ldr := s_ldr p |}.
+  Definition put_dvm (o : option (vec T)) (p : pstore T) : pstore T :=
+    {| s_use_wt := s_use_wt p; s_wt := s_wt p; s_omm := s_omm p; s_curv := s_curv p; s_cmd := s_cmd p; s_reg := s_reg p; s_dvm := o; s_lf := s_lf p; s_dlf := s_dlf p; s_momm := s_momm p; s_ldr := s_ldr p |}.
+  Definition put_lf (o : option (list (mat T))) (p : pstore T) : pstore T :=
+    {| s_use_wt := s_use_wt p; s_wt := s_wt p; s_omm := s_omm p; s_curv := s_curv p; s_cmd := s_cmd p; s_reg := s_reg p; s_dvm := s_dvm p; s_lf := o; s_dlf := s_dlf p; s_momm := s_momm p; s_ldr := s_ldr p |}.
+  Definition put_dlf (o : option (list (mat T))) (p : pstore T) : pstore T :=
+    {| s_use_wt := s_use_wt p; s_wt := s_wt p; s_omm := s_omm p; s_curv := s_curv p; s_cmd := s_cmd p; s_reg := s_reg p; s_dvm := s_dvm p; s_lf := s_lf p; s_dlf := o; s_momm := s_momm p; s_ldr := s_ldr p |}.
+  Definition put_momm (o : option (list (mat T))) (p : pstore T) : pstore T :=
+    {| s_use_wt := s_use_wt p; s_wt := s_wt p; s_omm := s_omm p; s_curv := s_curv p; s_cmd := s_cmd p; s_reg := s_reg p; s_dvm := s_dvm p; s_lf := s_lf p; s_dlf := s_dlf p; s_momm := o; s_ldr := s_ldr p |}.
+  Definition put_ldr (o : option T) (p : pstore T) : pstore T :=
+    {| s_use_wt := s_use_wt p; s_wt := s_wt p; s_omm := s_omm p; s_curv := s_curv p; s_cmd := s_cmd p; s_reg := s_reg p; s_dvm := s_dvm p; s_lf := s_lf p; s_dlf := s_dlf p; s_momm := s_momm p; s_ldr := o |}.
+
+  (* f_cmd_map: the value (or the exception) of InversionImagingMapping._curvature_matrix_mapper_diag of this inversion, which no
+     output of an inversion consults; it passes the GLOBAL no-regularization index list to a per-mapper matrix, so it is kept as
+     a kernel that may raise *)
+  Record fit := { f_inp : input T; f_mode : option (wtilde T); f_st : state T; f_cmd_map : res (mat T) }.
+  Definition with_st (f : fit) (st : state T) : fit :=
+    {| f_inp := f_inp f; f_mode := f_mode f; f_st := st; f_cmd_map := f_cmd_map f |}.
+  Definition fread (f : fit) (q : qty) : pval T * fit :=
+    let (v, st) := observe K V (f_inp f) (f_mode f) q (f_st f) in (v, with_st f st).
+  Fixpoint freads (f : fit) (qs : list qty) : list (pval T) * fit :=
+    match qs with
+    | [] => ([], f)
+    | q :: t => let (v, f1) := fread f q in let (vs, f2) := freads f1 t in (v :: vs, f2)
+    end.
+  (* the three attributes read by the set_* methods that are not among the observed quantities *)
+  Definition dvm_prop (f : fit) : option (vec T) * fit :=                 (* inversion._data_vector_mapper *)
+    let inp := f_inp f in
+    match f_mode f with
+    | None => (match s_dvm (store (f_st f)) with
+               | Some v => Some v
+               | None => if has_mapper inp then Some (apply_vws K (zeros_v K (total inp)) (dvm_writes_map K inp)) else None
+               end, f)
+    | Some _ => let (r, st) := dvm_ref_wt K inp (f_st f) in (Some (rdv r (store st)), with_st f st)
+    end.
+  Definition cmd_prop (f : fit) : res (option (mat T)) :=                 (* inversion._curvature_matrix_mapper_diag *)
+    let inp := f_inp f in
+    match f_mode f with
+    | None => match s_cmd (store (f_st f)) with
+              | Some m => Ok (Some m)
+              | None => if has_mapper inp then map_res (@Some (mat T)) (f_cmd_map f) else Ok None
+              end
+    | Some w => let (r, st) := cmd_ref K inp w (f_st f) in Ok (Some (rdm r (store st)))
+    end.
+  Definition dlf_prop (f : fit) : list (mat T) * fit :=                   (* inversion.data_linear_func_matrix_dict *)
+    let inp := f_inp f in
+    match s_dlf (store (f_st f)) with
+    | Some l => (rekey (funcs inp) l, f)
+    | None => let (lf, f1) := fread f QLf in (dlf_of K inp (as_l lf), f1)
+    end.
+
+  Inductive setter := SetWt | SetOmm | SetLf | SetCurv | SetReg.
+  Definition ncols (m : mat T) : nat := length (hd [] m).
+  Definition same_shape (a b : mat T) : bool := Nat.eqb (length a) (length b) && Nat.eqb (ncols a) (ncols b).
+
+  Definition run_setter (s : setter) (P : pstore T) (f0 f1 : fit) : res unit * pstore T * fit * fit :=
+    let inp0 := f_inp f0 in
+    match s with
+    | SetWt =>                                                  (* set_w_tilde_imaging *)
+        let P1 := put_use_wt (Some false) (put_wt None P) in
+        if negb (has_mapper inp0) then (Ok tt, P1, f0, f1)
+        else if c_close_v Cm (n inp0) (n (f_inp f1))
+             then (Ok tt, put_use_wt (Some true)
+                            (put_wt (Some {| wt_w := wt_w (ds_wt (in_ds inp0)); wt_nv := hd (t0 K) (n inp0) |}) P1), f0, f1)
+             else (Ok tt, P1, f0, f1)
+    | SetOmm =>                                                 (* set_operated_mapping_matrix_with_preloads *)
+        let P1 := put_omm None P in
+        let (b0, f0a) := fread f0 QOmm in let (b1, f1a) := fread f1 QOmm in
+        if Nat.eqb (ncols (as_m b0)) (ncols (as_m b1)) && c_close_m Cm (as_m b0) (as_m b1)
+        then (Ok tt, put_omm (Some (as_m b0)) P1, f0a, f1a) else (Ok tt, P1, f0a, f1a)
+    | SetLf =>                                                  (* set_linear_func_inversion_dicts *)
+        let P1 := put_lf None P in
+        if negb (has_mapper inp0) || negb (has_func inp0) then (Ok tt, P1, f0, f1)
+        else
+          let (l0, f0a) := fread f0 QLf in let (l1, f1a) := fread f1 QLf in
+          let pairs := combine (as_l l0) (as_l l1) in
+          if negb (Nat.eqb (length pairs) 0) && forallb (fun ab => c_close_m Cm (fst ab) (snd ab)) pairs
+          then let (dl, f0b) := dlf_prop f0a in (Ok tt, put_dlf (Some dl) (put_lf (Some (as_l l0)) P1), f0b, f1a)
+          else (Ok tt, P1, f0a, f1a)
+    | SetCurv =>                                                (* set_curvature_matrix *)
+        let P1 := put_momm None (put_cmd None (put_dvm None (put_curv None P))) in
+        match cmd_prop f0 with
+        | Raise e => (Raise e, P1, f0, f1)
+        | Ok c0 =>
+            let (F0, f0a) := fread f0 QCurv in let (F1, f1a) := fread f1 QCurv in
+            if same_shape (as_m F0) (as_m F1) then
+              if c_close_m Cm (as_m F0) (as_m F1) then (Ok tt, put_curv (Some (as_m F0)) P1, f0a, f1a)
+              else match c0 with
+                   | None => (Ok tt, P1, f0a, f1a)
+                   | Some m0 =>
+                       match cmd_prop f1a with
+                       | Raise e => (Raise e, P1, f0a, f1a)
+                       | Ok c1 =>
+                           if c_close_m Cm m0 (match c1 with Some m1 => m1 | None => [] end) then
+                             let (mo, f0b) := fread f0a QMomm in
+                             let (dv, f0c) := dvm_prop f0b in
+                             (Ok tt, put_cmd (Some m0) (put_dvm dv (put_momm (Some (as_l mo)) P1)), f0c, f1a)
+                           else (Ok tt, P1, f0a, f1a)
+                       end
+                   end
+            else (Ok tt, P1, f0a, f1a)
+        end
+    | SetReg =>                                                 (* set_regularization_matrix_and_term *)
+        let P1 := put_ldr None (put_reg None P) in
+        if negb (has_mapper inp0) then (Ok tt, P1, f0, f1)
+        else
+          let (l0, f0a) := fread f0 QLdr in
+          match as_rt l0 with
+          | Raise e => (Raise e, P1, f0a, f1)
+          | Ok x0 =>
+              let (l1, f1a) := fread f1 QLdr in
+              match as_rt l1 with
+              | Raise e => (Raise e, P1, f0a, f1a)
+              | Ok x1 =>
+                  if c_close_t Cm x0 x1
+                  then let (H, f0b) := fread f0a QReg in (Ok tt, put_ldr (Some x0) (put_reg (Some (as_m H)) P1), f0b, f1a)
+                  else (Ok tt, P1, f0a, f1a)
+              end
+          end
+    end.
+  (* the methods are called one after the other; an exception of one does not stop the caller from calling the next *)
+  Fixpoint run_setters (ss : list setter) (P : pstore T) (f0 f1 : fit) : list (res unit) * pstore T * fit * fit :=
+    match ss with
+    | [] => ([], P, f0, f1)
+    | s :: t => let '(r, P1, f0a, f1a) := run_setter s P f0 f1 in
+                let '(rs, P2, f0b, f1b) := run_setters t P1 f0a f1a in (r :: rs, P2, f0b, f1b)
+    end.
+  (* aa.Inversion(dataset, objs, settings, preloads=own): the inversion of a fit *)
+  Definition make_fit (inp : input T) (own : pstore T) (cmdm : res (mat T)) : res fit :=
+    match make_inversion K inp own with
+    | Raise e => Raise e
+    | Ok mode => Ok {| f_inp := inp; f_mode := mode; f_st := {| cache := empty_cache T; store := own |}; f_cmd_map := cmdm |}
+    end.
+End SetPreloads.
+
 (* ==================================================================================================== *)
 (* Execution instance: T = Q, dense reference semantics of the kernels; solver and log-determinants are   *)
 (* finite oracle tables taken from the implementation (execution devices of the correspondence run only). *)
@@ -780,8 +940,21 @@ Inductive case :=
 | KHist (C : qmat) (o : oracle) (inp : input Q) (pre : pstore Q) (h : list (list qty))
         (fresh : res (list (pval Q))) (outs : list (res (list (pval Q)))) (post : pstore Q)
   (* the factory given a Preloads object whose w_tilde may carry another noise_map_value *)
-| KNoise (inp : input Q) (pre : pstore Q) (raised : bool).
+| KNoise (inp : input Q) (pre : pstore Q) (raised : bool)
+  (* Preloads.set_*(fit_0, fit_1): the inversions of the two fits (input, own Preloads object, the value of the mapping
+     class's _curvature_matrix_mapper_diag), the attributes read from fit_0's inversion beforehand, the methods called in
+     order, and what the implementation did: which calls raised, the content of the Preloads object afterwards [post], the
+     attributes [reads1] read from fit_0's inversion AFTER the calls ([outs1]) and from a fresh inversion ([fresh1]);
+     [fresh_slots] = every slot as a fresh inversion of fit_0's class computes it (specification side);
+     [dvm_loose] = fit_0's own preloaded data_vector_mapper may already hold the function rows *)
+| KSet (C : qmat) (o : oracle) (inp0 : input Q) (own0 : pstore Q) (cmdm0 : res qmat) (reads0 : list qty)
+       (inp1 : input Q) (own1 : pstore Q) (cmdm1 : res qmat) (ss : list setter) (raised : list bool) (post : pstore Q)
+       (fresh_slots : pstore Q) (dvm_loose : bool) (reads1 : list qty) (outs1 fresh1 : res (list (pval Q))).
 
+(* np.max(abs(a - b)) < 1e-8 *)
+Definition qlt8 (a b : Q) : bool := negb (Qle_bool (1 # 100000000) (Qabs (a - b))).
+Definition qcmp : cmpk Q :=
+  {| c_close_v := list_eqb qlt8; c_close_m := list_eqb (list_eqb qlt8); c_close_t := qlt8 |}.
 Definition sumabs (v : qvec) : Q := fold_left (fun m x => qadd m (Qabs x)) v 0.
 (* rounding scale of the regularization term, from the model's own fresh values *)
 Definition amb_regterm (K : kernels Q) (inp : input Q) : Q :=
@@ -802,6 +975,16 @@ Definition agree (k : case) : bool :=
          end
   | KNoise inp pre raised =>
       Bool.eqb (negb (is_ok (make_inversion (qkernels [] {| or_solve := []; or_ldc := []; or_ldr := [] |}) inp pre))) raised
+  | KSet C o inp0 own0 cmdm0 reads0 inp1 own1 cmdm1 ss raised post fresh_slots dvm_loose reads1 outs1 fresh1 =>
+      let K := qkernels C o in
+      match make_fit K inp0 own0 cmdm0, make_fit K inp1 own1 cmdm1 with
+      | Ok f0, Ok f1 =>
+          let (_, f0a) := freads K code f0 reads0 in
+          let '(rs, P, f0b, _) := run_setters K code qcmp ss empty_store f0a f1 in
+          list_eqb Bool.eqb (map (fun r : res unit => negb (is_ok r)) rs) raised && store_close P post
+          && outs_close_at (amb_regterm K inp0) reads1 (Ok (fst (freads K code f0b reads1))) outs1
+      | _, _ => false
+      end
   end.
 
 (* transparency / reuse / immutability stated on the implementation's outputs only *)
@@ -823,6 +1006,19 @@ Definition spec_ok (k : case) : bool :=
                      && match s_use_wt pre with Some b => b | None => true end in
       let w := match s_wt pre with Some w => w | None => ds_wt (in_ds inp) end in
       Bool.eqb raised (uses_wt && negb (Qeq_bool (hd 0 (ds_n (in_ds inp))) (wt_nv w)))
+  | KSet C o inp0 own0 cmdm0 reads0 inp1 own1 cmdm1 ss raised post fresh_slots dvm_loose reads1 outs1 fresh1 =>
+      (* what the set_* methods stored satisfies the fresh-value premise, and fit_0's inversion is undisturbed *)
+      let sub {A} (eqa : A -> A -> bool) (x y : option A) : bool :=
+        match x with Some v => match y with Some u => eqa v u | None => false end | None => true end in
+      sub (qmclose qtol) (s_omm post) (s_omm fresh_slots) && sub (qmclose qtol) (s_curv post) (s_curv fresh_slots)
+      && sub (qmclose qtol) (s_cmd post) (s_cmd fresh_slots) && sub (qmclose qtol) (s_reg post) (s_reg fresh_slots)
+      && (dvm_loose || sub (qvclose qtol) (s_dvm post) (s_dvm fresh_slots))
+      && sub (list_eqb (qmclose qtol)) (s_lf post) (s_lf fresh_slots)
+      && sub (list_eqb (qmclose qtol)) (s_dlf post) (s_dlf fresh_slots)
+      && sub (list_eqb (qmclose qtol)) (s_momm post) (s_momm fresh_slots)
+      && sub (qrel qtol_spec) (s_ldr post) (s_ldr fresh_slots)
+      && sub wt_close (s_wt post) (s_wt fresh_slots)
+      && outs_close outs1 fresh1
   end.
 
 Definition check (k : case) : nat := verdict (agree k) (spec_ok k).
